@@ -4,8 +4,8 @@
 For each seeded change under /verif/seeded/<name>/: apply patch.diff to /repo (git apply), run the
 quick check of the property it breaks (or the given properties), undo it (git checkout -- .), and
 record which checks raised a VIOLATION.  Results go to seeded/RESULTS.json.  /repo is always restored.
-A change whose meta.json has a "retired" key was made harmless by a later fix in /repo (its demo passes
-with it): it is still run, and the check must stay quiet.
+A change whose meta.json has a "retired" key lost its confirmation through a later fix in /repo (its own demo
+passes with it): it is still run and what the check says is recorded, but it no longer counts as detected/missed.
 """
 import json
 import os
@@ -67,9 +67,9 @@ def main():
                                                    "line": viol[0] if viol else out.strip().splitlines()[-1:],
                                                    "kind": kind, "wall_s": round(time.time() - t0)}
                 if meta.get("retired"):
-                    # a later fix in /repo made this change harmless: the property holds with it, so no check may alarm
+                    # a later fix in /repo made the demo of this change pass: no longer a confirmed violation of its property
                     results[name][p]["retired"] = meta["retired"]
-                    print("%s / %s: retired, %s (%ds)" % (name, p, "ALARM ON HARMLESS CHANGE " + kind if viol else "quiet as it must be", time.time() - t0))
+                    print("%s / %s: retired (its demo no longer fails), check says: %s (%ds)" % (name, p, "VIOLATION " + kind if viol else "quiet", time.time() - t0))
                     continue
                 print("%s / %s: %s %s (%ds)" % (name, p, "DETECTED" if viol else "missed", kind, time.time() - t0))
         finally:
